@@ -184,3 +184,17 @@ PROPS['C01'] = dict(
     assumptions=['the source Publish is logged as accepted before the call (GoChannel accepts it at its linearization point)',
                  'quiescence = every expected lineage arrived, or 10 s passed'],
 )
+
+PROPS['C14'] = dict(
+    level='model_checking',
+    design=[D('MCDedup', 'MCDedup.cfg', coverage=True), D('MCDedup', 'MCDedup_mut_split.cfg', expect='fail', violates='AtMostOneFirst')],
+    traces={'DedupTrace': dict(module='DedupTrace', cfg='DedupTrace.cfg', timeout=1800)},
+    rule='runs = one Deduplicator each: 1/2/8/32 goroutines presenting random key multisets over several rounds (with pauses shorter than the window and longer than 3/2 window + '
+         'slack), as middleware and as publisher decorator, windows 20 and 60 ms; 32-goroutine barrier races on fresh keys; sequential window-edge trials (windows 1-5 ms, the key '
+         'presented again 60-560 us before its window ends); plus random payload pairs around the 64-byte read limit for the Adler-32 and SHA-256 hashers; every presentation '
+         'carries conservative time stamps; non-trivial = every run (each contains accepted and suppressed presentations)',
+    exhaustive=False,
+    min_stats={'cases': 40, 'hash_pairs': 300},
+    assumptions=['time stamps are taken before the call and after the return; all timing rules are necessary conditions only (R2, R3)',
+                 'the clean-up goroutine runs within slack = max(window, 50 ms) of its tick'],
+)
